@@ -9,12 +9,9 @@ like those of Props/C15.lean), add MONITOR_SIGS to ENTRY["monitor_sigs"], extend
 lines below. lean_exe `drv-valcache` is already in lakefile.toml; hook app/eth2wrap/verif_export_valcache.go is
 committed in /repo (af75d57).
 
-NOTE: on the unchanged tree the monitor `valcache:shared_map_mutated` fires (about 400 times per 30000 ops): the cache
-hands out its own maps (latent defect, fixes/C15-valcache-clone.diff). Either list KNOWN_FINDINGS[0] in
-known_findings.json (then the check prints KNOWN-FINDING and exits 0) or apply the fix in /repo and set
-`Cfg.current := ⟨true⟩` in lean/CharonV/Model/ValCache.lean (the line driver started as `drv-valcache fixed` already
-compares against the repaired variant: 0 differences against a tree with the fix). There are no correspondence
-differences on the unchanged tree.
+NOTE (lead): the hostile-caller episodes (op `mut`) are modelled as the code is (taint) and only counted as
+observed:shared_map_mutated; C15 does not quantify over callers that write into the maps they are handed, so this is an
+observation with a candidate hardening (fixes/C15-valcache-clone.diff), not a finding.
 """
 
 STREAM = {"name": "valcache", "drive": "drive-valcache", "model": "drv-valcache",
